@@ -438,7 +438,7 @@ func (m *monitor) applySetting(l *local, fi *faceInfo, rf *refs, st *setting) (*
 		}
 		if err := rf.ft.SetDesignCoords(d); err != nil {
 			rf.ftOK = false
-			l.inc("ref/ft/set-design-coords-failed")
+			l.inc("ref/ft/set-design-coords-failed: " + fi.id)
 		}
 	}
 	// FreeType must sit at the same point of the design space as HarfBuzz to
@@ -492,6 +492,7 @@ func (m *monitor) record(l *local, fi *faceInfo, quantity, class string, v verdi
 	case vViolated:
 		msg, w := describe()
 		l.inc("verdict/" + quantity + "=violated")
+		l.inc("violated-observations-by-face/" + fi.id)
 		m.run.Violation("C10/"+quantity+"/"+class, msg, w)
 	default:
 		reason := map[verdict]string{vSplit: "references split, library supported; differing: ", vSingle: "single reference differs: ", vRefsDiffer: "references differ from the library and from each other: ",
